@@ -917,20 +917,23 @@ func (engine *Engine) readConnBlocking(conn *Conn, parser *Parser, decrease func
 			return
 		}
 		err = parserCloser.Parse((*pbuf)[:n])
-		if err != nil {
-			logging.Debug("parser.Read failed: %v", err)
-			return
-		}
 		if conn.Trasfered {
 			parser.onClose = nil
 			parser.CloseAndClean(nil)
 			return
 		}
+		// An upgrade may have handed the connection over inside this Parse,
+		// which may have failed on what followed the upgrade request: the new
+		// protocol's closer is the one to clean up then.
 		if parser != nil && parser.ParserCloser != nil {
 			parserCloser = parser.ParserCloser
 			parser.onClose = nil
 			parser.CloseAndClean(nil)
 			parser = nil
+		}
+		if err != nil {
+			logging.Debug("parser.Read failed: %v", err)
+			return
 		}
 	}
 }
@@ -980,20 +983,21 @@ func (engine *Engine) readTLSConnBlocking(conn *Conn, rconn net.Conn, tlsConn *t
 			}
 			if nread > 0 {
 				err = parserCloser.Parse((*pbuf)[:nread])
-				if err != nil {
-					logging.Debug("parser.Read failed: %v", err)
-					return
-				}
 				if conn.Trasfered {
 					parser.onClose = nil
 					parser.CloseAndClean(nil)
 					return
 				}
+				// see readConnBlocking: hand over before looking at the error.
 				if parser != nil && parser.ParserCloser != nil {
 					parserCloser = parser.ParserCloser
 					parser.onClose = nil
 					parser.CloseAndClean(nil)
 					parser = nil
+				}
+				if err != nil {
+					logging.Debug("parser.Read failed: %v", err)
+					return
 				}
 			}
 			if nread == 0 {
